@@ -123,6 +123,7 @@ package uePolicyContainer
 //@   requires BufOK(buf)
 //@   ensures buflen(buf) >= 0 && buflen(buf) <= old(buflen(buf))
 //@   ensures implies(err == nil, p != nil && buflen(buf) <= old(buflen(buf)) - 5)
+//@   ensures implies(err == nil, p.Cause == 0x6f)
 //@ end
 
 //@ func (u *UEPolicySectionManagementSubResultContents) UnmarshalBinary(b) (err)
